@@ -6,6 +6,7 @@ package sim
 
 import (
 	"io"
+	"runtime"
 	"sync"
 	"syscall"
 )
@@ -21,6 +22,26 @@ type simPipe struct {
 	readChunks []int
 	ri         int
 	total      int // bytes ever written
+
+	// yields: runtime.Gosched() calls before each Read / Write, from the
+	// plan. At GOMAXPROCS=1 this deterministically changes which of
+	// git-sizer's own runnable goroutines (pipeline stages, feeders, main
+	// loop) gets the processor next.
+	yields []int
+	yi     int
+}
+
+func (p *simPipe) yield() {
+	if len(p.yields) == 0 {
+		return
+	}
+	p.mu.Lock()
+	n := p.yields[p.yi%len(p.yields)]
+	p.yi++
+	p.mu.Unlock()
+	for i := 0; i < n; i++ {
+		runtime.Gosched()
+	}
 }
 
 func newSimPipe(capac int, readChunks []int) *simPipe {
@@ -36,6 +57,7 @@ var errEPIPE = syscall.EPIPE
 // Write blocks according to the pipe capacity. It returns errEPIPE if the
 // read side is closed.
 func (p *simPipe) Write(b []byte) (int, error) {
+	p.yield()
 	p.mu.Lock()
 	defer p.mu.Unlock()
 	n := 0
@@ -88,6 +110,7 @@ func (p *simPipe) CloseRead() {
 }
 
 func (p *simPipe) Read(b []byte) (int, error) {
+	p.yield()
 	p.mu.Lock()
 	defer p.mu.Unlock()
 	for len(p.buf) == 0 {
